@@ -201,12 +201,19 @@ def render_wsdl(ss):
     files = ss.files
     tns = f0.prefixes[0]
     own_wsdl_ns = w.uri != f0.uri
-    if own_wsdl_ns:
+    share = own_wsdl_ns and getattr(w, "share_prefix", False)
+    elem_prefix = None
+    if share:
+        # same prefix as the inline schema uses for itself, but bound to the WSDL's namespace up here; element= references
+        # of the parts go through another prefix
+        tns = f0.prefixes[0]
+        elem_prefix = next(p for p in ("el", "sch", "typesns", "xsdns") if p not in f0.prefixes.values() and p != f0.xs_prefix)
+    elif own_wsdl_ns:
         tns = next(p for p in ("wsd", "wns", "defs", "svcns") if p not in f0.prefixes.values() and p != f0.xs_prefix)
     out = ['<?xml version="1.0" encoding="UTF-8"?>']
     decl = f'<wsdl:definitions xmlns:wsdl="{WSDL_NS}" xmlns:soap="{SOAP_NS}" xmlns:{f0.xs_prefix}="{XSD_NS}" targetNamespace={quoteattr(w.uri)}'
     for k, p in sorted(f0.prefixes.items(), key=lambda kv: kv[1]):
-        decl += f' xmlns:{p}={quoteattr(files[k].uri)}'
+        decl += f' xmlns:{elem_prefix if share and k == 0 else p}={quoteattr(files[k].uri)}'
     if own_wsdl_ns:
         decl += f' xmlns:{tns}={quoteattr(w.uri)}'
     decl += f' name={quoteattr(w.service.xml)}>'
@@ -222,7 +229,8 @@ def render_wsdl(ss):
                 continue
             out.append(f'  <wsdl:message name={quoteattr(m.name.xml)}>')
             for p in m.parts:
-                out.append(f'    <wsdl:part name={quoteattr(p.name.xml)} element={quoteattr(qname(f0, p.element))}/>')
+                ref = f"{elem_prefix}:{p.element.name}" if share and p.element.file == 0 else qname(f0, p.element)
+                out.append(f'    <wsdl:part name={quoteattr(p.name.xml)} element={quoteattr(ref)}/>')
             out.append('  </wsdl:message>')
     out.append(f'  <wsdl:portType name={quoteattr(w.port_type.xml)}>')
     for op in w.operations:
